@@ -186,8 +186,6 @@ func init() {
 		if b2, err2 := acrablock.NewAcraBlockFromData(in); err2 == nil {
 			_, _ = b2.Decrypt(ks, []byte("ctx"))
 		}
-		// Decrypt validates on its own (it is called on blocks coming from stored containers)
-		_, _ = acrablock.AcraBlock(in).Decrypt(ks, nil)
 		return err
 	}})
 	reg(&target{name: "env.acrablock.process", group: "envelope", seeds: envelopeSeeds, setup: worldSetup, run: func(in []byte) error {
